@@ -8,6 +8,8 @@ correspondence: isosteric_enthalpy_raw / isosteric_enthalpy vs Charact/Enthalpy.
                 numpy.log rows as data); Whittaker values by certified interval goals over the generated expression, kept loadings
                 by the executed loop; initial_enthalpy_point by the executed model.
 oracle/search : on the implementation: dH returned at every loading (raw 1e-8, model isotherms 1e-6, dense point isotherms 1e-3),
+                raw temperatures also as python ints / integer arrays / mixed; two-branch point isotherms (different dH per branch) analysed several
+                times on the SAME objects (either branch, other interpolation settings in between) == freshly built twins == dH of the branch;
                 any number/order of temperatures and common units; Whittaker = lambda + dh_vap + RT (CoolProp dh_vap as oracle) and
                 omission exactly outside [0, min(p_c, p_sat)]; initial point = first enthalpy of the branch.
 """
@@ -101,6 +103,16 @@ def gen_cases(tier, seed):
         na = rnd.randint(1, 12); nd = rnd.choice([0, 0, rnd.randint(1, 8)])
         ent = [round(rnd.uniform(5, 60), 3) for _ in range(na + nd)]
         cases.append(dict(method='initial', na=na, nd=nd, ent=ent, branch=rnd.choice(['ads', 'ads', 'des']), key=rnd.choice(['enthalpy', 'enthalpy', 'missing'])))
+    # raw entry point with temperatures of other numeric types ("whatever the temperatures"): whole-number kelvins given as python ints, as an
+    # integer numpy array, as python ints mixed with floats. Own generator: the cases above are unchanged.
+    rt = random.Random(seed * 104729 + 3)
+    for i in range(16 * scale):
+        k = rt.randint(2, 5)
+        ts = [float(v) for v in rt.sample(range(200, 401), k)]
+        dH = rt.uniform(5, 60)
+        a = [rt.uniform(-5, 25) for _ in range(rt.randint(1, 6))]
+        P = [[math.exp(ai - dH * 1000 / (RGAS * T)) for T in ts] for ai in a]
+        cases.append(dict(method='raw', temps=ts, P=P, dH=dH, kind='exact', bad=False, ttype=('int', 'npint', 'mixed', 'npint32')[i % 4]))
     return cases
 
 
@@ -163,7 +175,17 @@ def run_impl(c):
     from pygaps.characterisation import isosteric_enth, enth_sorp_whittaker, initial_enth
     try:
         if c['method'] == 'raw':
-            e, s, r, se = isosteric_enth.isosteric_enthalpy_raw(c['P'], c['temps'])
+            temps = c['temps']
+            tt = c.get('ttype')
+            if tt == 'int':
+                temps = [int(v) for v in temps]
+            elif tt == 'npint':
+                temps = np.array([int(v) for v in temps])
+            elif tt == 'mixed':
+                temps = [int(v) for v in temps[:-1]] + [float(temps[-1])]
+            elif tt == 'npint32':
+                temps = np.array([int(v) for v in temps], dtype=np.int32)
+            e, s, r, se = isosteric_enth.isosteric_enthalpy_raw(c['P'], temps)
             return dict(oc='Ok', enth=[float(x) for x in e], slopes=[float(x) for x in s], r=[float(x) for x in r],
                         logp=[[float(x) for x in row] for row in np.log(np.asarray(c['P']))])
         if c['method'] == 'iso':
@@ -206,6 +228,99 @@ def run_impl(c):
     except Exception as ex:  # noqa
         return dict(oc=vlib.exn_class(ex), msg=str(ex)[:200])
     raise RuntimeError(c['method'])
+
+
+# ------------------------------------------------------------------ objects with a history (oracle only)
+HIST_OPS = [('enth', 'ads'), ('enth', 'des'), ('enth', 'ads'), ('enth', 'des'), ('pressure_at', 'ads'), ('pressure_at', 'des'),
+            ('loading_at', 'ads'), ('loading_at', 'des'), ('pressure_at_other', 'ads'), ('pressure_at_other', 'des')]
+
+
+def gen_history_cases(tier, seed):
+    """Point isotherms carrying BOTH branches with different generating enthalpies, analysed several times on the SAME objects."""
+    rnd = random.Random(seed * 7919 + 19)
+    cases = []
+    for _ in range(10 if tier == 'quick' else 80):
+        ts = temps_of(rnd)[:3]
+        dHa = rnd.uniform(5, 60)
+        dHd = dHa + rnd.choice([-1, 1]) * rnd.uniform(2, 15)
+        nm = rnd.uniform(1, 10)
+        K0 = 10 ** rnd.uniform(-9, -5)
+        nload = rnd.randint(1, 6)
+        loads = sorted(rnd.uniform(0.05, 0.7) * nm for _ in range(nload))
+        nops = rnd.randint(2, 6)
+        ops = [rnd.choice(HIST_OPS) for _ in range(nops)]
+        if not any(o[0] == 'enth' for o in ops):
+            ops.append(('enth', rnd.choice(['ads', 'des'])))
+        cases.append(dict(method='history', kind='point', model='Langmuir', temps=ts, dH={'ads': dHa, 'des': max(dHd, 2.0)}, nm=nm,
+                          K0={'ads': K0, 'des': K0 * 10 ** rnd.uniform(0.0, 0.5)}, pu=rnd.choice(list(UNITS_P)), lu=rnd.choice(['mmol', 'mol']),
+                          mu=rnd.choice(['g', 'kg']), loads=loads, ops=[list(o) for o in ops], default_grid=rnd.random() < 0.25))
+    return cases
+
+
+def history_iso(c, T):
+    import pygaps
+    pfac = UNITS_P[c['pu']]
+    lfac = {'mmol': 1.0, 'mol': 1e-3}[c['lu']] * {'g': 1.0, 'kg': 1e3}[c['mu']]
+    P, L = [], []
+    for b in ('ads', 'des'):
+        K = c['K0'][b] * math.exp(c['dH'][b] * 1000 / (RGAS * T)) * pfac
+        ps = np.exp(np.linspace(math.log(1e-4 / K), math.log(50 / K), 300))
+        if b == 'des':
+            ps = ps[::-1]
+        P += [float(x) for x in ps]
+        L += [float(c['nm'] * lfac * K * x / (1 + K * x)) for x in ps]
+    return pygaps.PointIsotherm(pressure=P, loading=L, branch=[0] * 300 + [1] * 300, material='verif_c19',
+                                adsorbate=cl.adsorbate('c19', molar_mass=28.0134, saturation_pressure=101325.0, liquid_density=0.808),
+                                temperature=T, pressure_mode='absolute', pressure_unit=c['pu'], loading_basis='molar', loading_unit=c['lu'],
+                                material_basis='mass', material_unit=c['mu'])
+
+
+def run_history(c):
+    """Returns the list of (step, branch, enthalpies on the objects with a history, enthalpies on fresh twins, loadings)."""
+    from pygaps.characterisation import isosteric_enth
+    lfac = {'mmol': 1.0, 'mol': 1e-3}[c['lu']] * {'g': 1.0, 'kg': 1e3}[c['mu']]
+    lp = None if c['default_grid'] else [x * lfac for x in c['loads']]
+    isos = [history_iso(c, T) for T in c['temps']]
+    out = []
+    for k, (op, b) in enumerate(c['ops']):
+        try:
+            if op == 'enth':
+                res = isosteric_enth.isosteric_enthalpy(isos, loading_points=lp, branch=b)
+                fresh = isosteric_enth.isosteric_enthalpy([history_iso(c, T) for T in c['temps']], loading_points=lp, branch=b)
+                out.append(dict(step=k, branch=b, oc='Ok', enth=[float(x) for x in res['isosteric_enthalpy']], loads=[float(x) for x in res['loading']],
+                                fresh=[float(x) for x in fresh['isosteric_enthalpy']], fresh_loads=[float(x) for x in fresh['loading']]))
+            else:
+                mid = 0.3 * c['nm'] * lfac
+                for iso in isos:
+                    if op == 'pressure_at':
+                        iso.pressure_at(mid, branch=b)
+                    elif op == 'pressure_at_other':
+                        iso.pressure_at(mid, branch=b, interpolation_type='slinear', interp_fill='extrapolate')
+                    else:
+                        iso.loading_at(float(iso.pressure(branch=b)[150]), branch=b)
+        except Exception as ex:  # noqa
+            out.append(dict(step=k, branch=b, oc=vlib.exn_class(ex), msg=str(ex)[:200]))
+    return out
+
+
+def judge_history(c, out, fail):
+    ok = True
+    for r in out:
+        before = [tuple(o) for o in c['ops'][:r['step']]]
+        if r['oc'] != 'Ok':
+            fail('crash', 'step %d (%s) after %r: %s %s' % (r['step'], r['branch'], before, r['oc'], r.get('msg')))
+            return False
+        dH = c['dH'][r['branch']]
+        if len(r['enth']) != len(r['fresh']) or any(rel(a, b) > 1e-10 for a, b in zip(r['enth'] + r['loads'], r['fresh'] + r['fresh_loads'])):
+            fail('history-dependent', 'isosteric_enthalpy(branch=%r) on point isotherms (T=%r) previously used as %r returns %r, on freshly built twins %r '
+                 '(generating dH: %r)' % (r['branch'], c['temps'], before, r['enth'][:3], r['fresh'][:3], c['dH']))
+            return False
+        badv = [(n, e) for n, e in zip(r['loads'], r['enth']) if not rel(e, dH) <= 1e-3]
+        if badv:
+            fail('recover', 'isosteric_enthalpy(branch=%r) of two-branch point isotherms at T=%r: dH=%r, returned %r' % (r['branch'], c['temps'], dH, badv[:3]))
+            ok = False
+    return ok
+
 
 
 # ------------------------------------------------------------------ model terms
@@ -252,7 +367,7 @@ def judge(c, o, fail):
         if c['kind'] == 'exact':
             badv = [(i, e) for i, e in enumerate(o['enth']) if rel(e, c['dH']) > 1e-8]
             if badv or len(o['enth']) != len(c['P']):
-                fail('recover', 'isosteric_enthalpy_raw on van t Hoff data (dH=%r, T=%r): %r' % (c['dH'], c['temps'], badv[:3]))
+                fail('recover', 'isosteric_enthalpy_raw on van t Hoff data (dH=%r, T=%r given as %s): %r' % (c['dH'], c['temps'], c.get('ttype', 'floats'), badv[:3]))
             return True
         return False
     if m == 'iso':
@@ -300,7 +415,7 @@ def judge(c, o, fail):
 
 
 def classify(c, clause, o):
-    return 'C19:unclassified:%s:%s:%s:%s' % (c['method'], clause, c.get('kind'), c.get('model'))
+    return 'C19:unclassified:%s:%s:%s:%s' % (c['method'], clause, c.get('kind'), c.get('ttype') or c.get('model'))
 
 
 def run(rep, tier, seed):
@@ -346,6 +461,16 @@ def explore(rep, tier, seed):
                                            'implementation': {k: (v if not isinstance(v, list) else v[:4]) for k, v in o.items() if k != 'logp'}, 'model': [code, agree]})
         if judge(c, o, fail):
             nontrivial.add((c['method'], c.get('kind'), c.get('model'), len(c.get('temps', [])), c.get('pu'), c.get('ads'), c.get('branch')))
+    hcases = gen_history_cases(tier, seed)
+    for c in hcases:
+        hout = run_history(c)
+        hist['history/point/Langmuir'] = hist.get('history/point/Langmuir', 0) + 1
+
+        def hfail(clause, what, c=c, hout=hout):
+            rep.failure(classify(c, clause, None), what, {'case': dict(c), 'clause': clause, 'outcome': hout[:6]})
+        if judge_history(c, hout, hfail):
+            for r in hout:
+                nontrivial.add(('history', 'point', 'Langmuir', len(c['temps']), c['pu'], None, r['branch']))
     goals = []
     rnd = random.Random(seed + 5)
     wi = [i for i, c in enumerate(cases) if c['method'] == 'whittaker' and outs[i]['oc'] == 'Ok']
@@ -359,12 +484,12 @@ def explore(rep, tier, seed):
                 if ng_bad <= 3:
                     rep.broken_obligation('correspondence:generated-Whittaker-expression-vs-implementation (interval goal)', {'goal': g[:500]})
     rep.cov['timing_s'] = {'implementation': round(t1 - t0, 1), 'coq_model_evaluation': round(t2 - t1, 1), 'oracle_and_interval_goals': round(time.time() - t2, 1)}
-    rep.cov['evaluations'] = rep.cov.get('evaluations', 0) + len(cases)
+    rep.cov['evaluations'] = rep.cov.get('evaluations', 0) + len(cases) + len(hcases)
     rep.cov['distinct_nontrivial'] = len(nontrivial)
-    rep.cov['rule'] = ('raw: 2-5 shuffled distinct temperatures in 200-400 K, 1-12 loadings, dH 5-60 kJ/mol, pressure unit factor, exact or 5% noise; isotherm entry: '
+    rep.cov['rule'] = ('raw: 2-5 shuffled distinct temperatures in 200-400 K, 1-12 loadings, dH 5-60 kJ/mol, pressure unit factor, exact or 5% noise, plus 16 cases with whole-number temperatures passed as python ints / int64 / int32 arrays / ints mixed with a float; isotherm entry: '
                        'Langmuir / Toth / DS-Langmuir model isotherms and 400-point point isotherms in bar|Pa|kPa, mmol|mol, g|kg; Whittaker: Langmuir / Toth in Pa for '
                        'nitrogen, carbon dioxide, methane, argon below the critical temperature, loadings from 0 to n_m(1-1e-9); initial point: 1-12 adsorption and 0-8 '
-                       'desorption rows. non-trivial = distinct (method, kind, model, number of temperatures, unit, adsorbate, branch) that passed the recovery oracle')
+                       'desorption rows; history: 300+300-point two-branch Langmuir point isotherms (different dH per branch) analysed 2-6 times on the same objects (either branch, pressure_at / loading_at with other interpolation settings in between), each analysis compared with freshly built twins and the dH of the requested branch. non-trivial = distinct (method, kind, model, number of temperatures, unit, adsorbate, branch) that passed the recovery oracle')
     rep.cov['input_distribution'] = dict(sorted(hist.items()))
     rep.cov['correspondence'] = {'cases': len(cases), 'disagreements': n_dis, 'tolerance_rel': 1e-8, 'interval_goals': len(goals), 'interval_goals_failed': ng_bad,
                                  'what': 'isosteric_enthalpy_raw / isosteric_enthalpy vs Enthalpy.isosteric_from_logs (enthalpy, slope, r^2 per loading); Whittaker kept loadings '
@@ -384,6 +509,15 @@ def replay(d):
     import logging
     logging.disable(logging.CRITICAL)
     c = d['replay']['case']
+    if c['method'] == 'history':
+        hout = run_history(c)
+        print('case:', {k: (v if not isinstance(v, list) else v[:6]) for k, v in c.items()})
+        print('implementation now returns:', hout[:6])
+        msgs = []
+        judge_history(c, hout, lambda clause, what: msgs.append((clause, what)))
+        for m in msgs:
+            print('FAILS:', m)
+        return 1 if msgs else 0
     o = run_impl(c)
     print('case:', {k: (v if not isinstance(v, list) else v[:6]) for k, v in c.items()})
     print('implementation now returns:', {k: (v if not isinstance(v, list) else v[:6]) for k, v in o.items() if k != 'logp'})
